@@ -337,3 +337,24 @@ def integer_multiples():
         "A" * -1
 
     return "I"
+
+
+def input_names_ending_in_zero_or_underscore():
+    # `start = "<input>_0"` names the zeroth order of the input called <input>; input names may themselves end in digits or underscores
+    with "S":
+        start = "E0_0"
+        "A" - "E0".adj / 2 + "S @ A"
+
+    with "T":
+        start = "V_10_0"
+        "V_10" - "S" + "W_".adj
+
+    with "R":
+        start = "W__0"
+        "A".adj / 3 - "T"
+
+    with "S @ A":
+        pass
+
+    return "S", "T", "R"
+
